@@ -24,7 +24,7 @@ func init() {
 		Title: "The decoded packet does not depend on how the stream is fragmented",
 		Level: "model_checking",
 		Rule: "stateless exploration of the real ReadPacket under a scripted io.Reader: one choice point per Read call with the menu {deliver all asked, deliver k for every 1<=k<asked, (0,nil) (bounded per execution), deliver the final bytes together with io.EOF}; " +
-			"frames <= 10 bytes: the complete tree with up to 2 zero-length reads; longer frames: every execution with at most 2 non-default answers (3 for frames <= 48 bytes; thorough: 4 for frames <= 24 bytes, 3 for frames <= 100 bytes, two zero-length reads everywhere); one 70 KiB frame with 1 (thorough only). " +
+			"frames <= 10 bytes: the complete tree with up to 2 zero-length reads; longer frames: every execution with at most 2 non-default answers (3 for frames <= 48 bytes; thorough: 4 for frames <= 24 bytes, 3 for frames <= 100 bytes, two zero-length reads everywhere); one 70 KiB frame with 1 (thorough only); every frame of the valid corpus V (~2.7k frames, one per field shape) with 1 (quick) / 2 (thorough). " +
 			"Every execution's result (accessor observation + String + re-encoding, or rejection) must equal the contiguous execution's. " +
 			"states = distinct (frame, reader position, answers so far) prefixes = choice points visited; transitions = Read answers executed; a trace is one complete delivery schedule, all run on the implementation; distinct_nontrivial = distinct schedules with at least one non-default answer.",
 		Assumptions: []string{
@@ -113,12 +113,26 @@ func c07Frames(x *core.Ctx) []CFrame {
 }
 
 func runC07(x *core.Ctx) {
-	for _, f := range c07Frames(x) {
+	frames := c07Frames(x)
+	nCorpus := len(frames)
+	// the whole valid corpus V (one frame per field shape) with a smaller bound
+	for _, v := range validCorpus() {
+		frames = append(frames, CFrame{Name: "V:" + v.Name, B: v.B, Valid: true, Type: v.B[0] >> 4})
+	}
+	for fi, f := range frames {
 		if !x.Mine() {
 			continue
 		}
 		f := f
 		ref, _ := c07Exec(f.B, nil, 0, false)
+		if fi >= nCorpus {
+			bound := 1
+			if x.Thorough() {
+				bound = 2
+			}
+			c07Explore(x, f, ref, bound, 1, fmt.Sprintf("V.bounded%d", bound))
+			continue
+		}
 		bound, maxZero, stratum := 2, 1, "bounded2"
 		switch {
 		case len(f.B) <= 10:
@@ -134,42 +148,46 @@ func runC07(x *core.Ctx) {
 		case len(f.B) <= 48:
 			bound, maxZero, stratum = 3, 1, "bounded3<=48B"
 		}
-		e := &explore.Explorer{Bound: bound}
-		e.Run = func(c *explore.Chooser) bool {
-			out, _ := c07Exec(f.B, c, maxZero, false)
-			x.Eval(stratum)
-			x.R.Traces++
-			x.R.Transitions += int64(c.Points())
-			taken := c.Taken()
-			dev := false
-			for _, t := range taken {
-				if t != 0 {
-					dev = true
-				}
-			}
-			if dev {
-				x.Distinct(core.HashInts(f.Name, taken))
-			}
-			if out != ref {
-				fd := c07Finding(f.Name, f.B, ref, taken, maxZero)
-				x.Report(fd, func() core.Case {
-					return core.Case{Harness: "c07", Frame: hexOf(f.B), Choices: taken, Params: map[string]any{"max_zero": maxZero, "name": f.Name}}
-				}, func() *core.Finding { return c07Finding(f.Name, f.B, ref, taken, maxZero) })
-			}
-			return !x.Expired()
-		}
-		e.Explore()
-		x.R.States += e.Runs // every execution ends in a distinct terminal state; interior points are counted as transitions
-		if int64(e.MaxPoints) > x.R.MaxDepth {
-			x.R.MaxDepth = int64(e.MaxPoints)
-		}
-		if !e.Complete {
-			x.R.Exhaustive = false
-		}
-		x.Sample(stratum, 2, func() any {
-			return map[string]any{"frame": f.Name, "hex": abbrevHex(f.B), "schedules": e.Runs, "max_choice_points": e.MaxPoints, "contiguous_result": clip(ref, 120)}
-		})
+		c07Explore(x, f, ref, bound, maxZero, stratum)
 	}
+}
+
+func c07Explore(x *core.Ctx, f CFrame, ref string, bound, maxZero int, stratum string) {
+	e := &explore.Explorer{Bound: bound}
+	e.Run = func(c *explore.Chooser) bool {
+		out, _ := c07Exec(f.B, c, maxZero, false)
+		x.Eval(stratum)
+		x.R.Traces++
+		x.R.Transitions += int64(c.Points())
+		taken := c.Taken()
+		dev := false
+		for _, t := range taken {
+			if t != 0 {
+				dev = true
+			}
+		}
+		if dev {
+			x.Distinct(core.HashInts(f.Name, taken))
+		}
+		if out != ref {
+			fd := c07Finding(f.Name, f.B, ref, taken, maxZero)
+			x.Report(fd, func() core.Case {
+				return core.Case{Harness: "c07", Frame: hexOf(f.B), Choices: taken, Params: map[string]any{"max_zero": maxZero, "name": f.Name}}
+			}, func() *core.Finding { return c07Finding(f.Name, f.B, ref, taken, maxZero) })
+		}
+		return !x.Expired()
+	}
+	e.Explore()
+	x.R.States += e.Runs // every execution ends in a distinct terminal state; interior points are counted as transitions
+	if int64(e.MaxPoints) > x.R.MaxDepth {
+		x.R.MaxDepth = int64(e.MaxPoints)
+	}
+	if !e.Complete {
+		x.R.Exhaustive = false
+	}
+	x.Sample(stratum, 2, func() any {
+		return map[string]any{"frame": f.Name, "hex": abbrevHex(f.B), "schedules": e.Runs, "max_choice_points": e.MaxPoints, "contiguous_result": clip(ref, 120)}
+	})
 }
 
 func replayC07(c core.Case) *core.Finding {
